@@ -346,7 +346,7 @@ class Plugin(object):
         self.env = env
         unit = M.ExcludeRegionPlugin()
         unit._identifier = "excluderegion"
-        unit._logger = make_logger(False, "octoprint.plugins.excluderegion.vp")
+        unit._logger = make_logger(bool((settings or {}).get("debug")), "octoprint.plugins.excluderegion.vp")
         unit._plugin_manager = RecordingPluginManager()
         unit._plugin_version = "vp"
         pre = unit.get_settings_preprocessors()
@@ -364,7 +364,7 @@ class Plugin(object):
     # -- settings: always write every key the histories depend on (the settings object is process-wide)
     def write_settings(self, s, fire=True):
         full = dict(clear=False, shrink=False, enter=None, exit=None, ext=dict(DEFAULT_EXT),
-                    at=[list(a) for a in DEFAULT_AT], g90e=False)
+                    at=[list(a) for a in DEFAULT_AT], g90e=False, logmode="octoprint")
         full.update(s)
         self.settings = full
         st = self.unit._settings
@@ -375,7 +375,7 @@ class Plugin(object):
         st.set(["extendedExcludeGcodes"], [dict(gcode=g, mode=m, description="vp") for g, m in full["ext"].items()])
         st.set(["atCommandActions"], [dict(command=c, parameterPattern=p, action=a, description="vp")
                                       for c, p, a in full["at"]])
-        st.set(["loggingMode"], "octoprint")
+        st.set(["loggingMode"], full.get("logmode", "octoprint"))
         self.env["settings"]().setBoolean(["feature", "g90InfluencesExtruder"], bool(full["g90e"]))
         if fire:
             self.event("SettingsUpdated")
